@@ -975,6 +975,16 @@ def r3(ctx):
                 fn_ = a_
                 break
         ok = _path_fact(c_, f"{x_}.finalized", False, fn_)
+        if not ok and x_ not in [a.arg for a in fn_.args.args]:
+            # the message object is created in this function: the guard is needed only after a hook point saw it
+            fcfg_ = CFG(fn_)
+            hp_nodes = [n for n in fcfg_.nodes for cc in cfg_node_calls(fcfg_, n)
+                        if any(ap(a) == x_ for a in cc.args) and ((call_attr(cc) or "") == "handle" or
+                                                                  (call_attr(cc) or "").startswith("handle_")
+                                                                  or (call_attr(cc) or "") == "_call_all_addon_hooks")]
+            dn_ = set(fcfg_.stmt_nodes_containing(c_))
+            if not any(n in fcfg_.reachable([h_], exc=True) for h_ in hp_nodes for n in dn_):
+                ok = True
         if not ok and f_.cls is not None:
             sites_ = [(g_, cc) for g_, cc in call_index(repo).get(f_.name, []) if isinstance(cc.func, ast.Attribute)
                       and ap(cc.func.value) in ("self", "cls") and g_.cls is not None and g_.cls == f_.cls]
@@ -1063,6 +1073,12 @@ def r4_r6(ctx):
                   for e, pol in fs)
         ctx.ob(R4, f"{key} skipped when handle_proxied_packet hook claimed the packet", pkt, ctx.w(f, c))
     drops = sites(lambda c: call_attr(c) == "drop_message")
+    # the tail is what runs after the lludp hook: a drop before any hook point (e.g. a refused datagram) is not the tail's
+    if len(hook) == 1:
+        hfn, hcall = hook[0]
+        hcfg_ = CFG(hfn.node)
+        after_hook = hcfg_.reachable(hcfg_.stmt_nodes_containing(hcall), exc=True)
+        drops = [(f, c) for f, c in drops if f is not hfn or any(n in after_hook for n in hcfg_.stmt_nodes_containing(c))]
     ctx.ob(R4, "a queued (taken) original is dropped", any(_suffix_fact(ifacts(fns, hp, f, c), ".queued", True)
                                                           for f, c in drops), hp.where,
            "no drop_message under `message.queued`: the taken original is never acked/finalized")
